@@ -70,21 +70,9 @@ func (cl *cluster) applyClone(ev string, f []string) bool {
 			for rn.srv.Replica() == nil {
 				cl.gate("clone process: waiting to be opened by its controller")
 			}
-			if rn.srv.Replica().GetCloneStatus() != "completed" {
-				cl.gate("clone process: about to set status inProgress")
-				if err := rn.srv.Replica().SetCloneStatus("inProgress"); err != nil {
-					return err
-				}
-				if err := app.CloneReplica(rn.srv, addr(1), ctlHost, snap); err != nil {
-					cl.gate("clone process: about to set status error")
-					if rn.srv.Replica() != nil {
-						rn.srv.Replica().SetCloneStatus("error")
-					}
-					return err
-				}
-			}
-			cl.gate("clone process: about to set status completed")
-			return rn.srv.Replica().SetCloneStatus("completed")
+			// the verbatim status bracket of app.startReplica (generated from the repository's current text by tools/gen)
+			cl.gate("clone process: about to run startReplica's clone bracket")
+			return app.VerifCloneBracket(rn.srv, ip(1)+":9502", ctlHost, snap, "clone")
 		})
 		cl.observe("%s -> %s", ev, cl.taskDesc())
 	case "SrcDown":
